@@ -109,19 +109,15 @@ func NumberPool() []NumCase {
 	add(cty.NumberFloatVal(1e23).Multiply(cty.NumberIntVal(3)), "whole-narrow-mantissa", false)
 	add(cty.NumberVal(new(big.Float).SetPrec(100).Add(pow2(120), pow2(30))), "whole-narrow-mantissa", false)
 	add(cty.NumberVal(new(big.Float).SetPrec(24).SetFloat64(16777216*1048577)), "whole-narrow-mantissa", false)
-	// fractions held at precisions other than 53 / 64 / 512 bits (float32-like 24, 100, 200): one decimal text, several exact
-	// values; anything that prints, hashes or caches a number through a float64 or through its text meets them here
-	for _, d := range []string{"0.1", "0.3", "-2.2", "1.00000000001"} {
-		for _, prec := range []uint{24, 100, 200} {
-			add(cty.NumberVal(bigFromString(d, prec)), "fraction-odd-precision", false)
-		}
-	}
-	add(cty.NumberVal(new(big.Float).SetPrec(24).SetFloat64(float64(float32(0.1)))), "fraction-odd-precision", false)
-	add(cty.NumberFloatVal(float64(float32(0.1))), "fraction-odd-precision", false)
-	// the exact value of a float64 fraction held at a wider precision: same VALUE as NumberFloatVal(f), other decimal text
+	// a float32-derived float64 (plain 53-bit number whose decimal text is long)
+	add(cty.NumberFloatVal(float64(float32(0.1))), "float32-derived", false)
+	// the exact value of a float64 fraction held at 512 bits, as arithmetic with a parsed operand produces it
+	// (NumberFloatVal(0.1).Add(MustParseNumberVal("0"))): same VALUE as NumberFloatVal(f), other decimal text.
+	// (Fractions at other odd precisions - 24, 100, 200 bits - are outside the number classes the properties
+	// quantify over except C03's "numerically equal at different precisions"; they live in C03's own pool and in
+	// the twin enumerations of C01 / C05, not here.)
 	for _, f := range []float64{0.1, 0.3, 1e-7, 123.456} {
-		add(cty.NumberVal(new(big.Float).SetPrec(512).SetFloat64(f)), "float64-value-at-512-bits", false)
-		add(cty.NumberVal(new(big.Float).SetPrec(100).SetFloat64(f)), "float64-value-at-100-bits", false)
+		add(cty.NumberFloatVal(f).Add(cty.MustParseNumberVal("0")), "float64-value-at-512-bits", false)
 	}
 	numberPool = p
 	return p
